@@ -139,6 +139,31 @@ def unparse(node: ast.AST) -> str:
 # ---------------------------------------------------------------------------
 
 
+class _SplitTupleAssign(ast.NodeTransformer):
+    """`a, b = x, y` is `a = x; b = y` when no target is read on the right (not a swap): the rules look at one store at a
+    time.  Name targets with arbitrary right-hand sides (evaluation order is kept); self.<attr> targets only with plain
+    names / literals on the right."""
+
+    def visit_Assign(self, n):
+        self.generic_visit(n)
+        if len(n.targets) != 1 or not isinstance(n.targets[0], (ast.Tuple, ast.List)) or not isinstance(n.value, (ast.Tuple, ast.List)):
+            return n
+        ts, vs = n.targets[0].elts, n.value.elts
+        if len(ts) != len(vs) or len(ts) < 2 or any(isinstance(e, ast.Starred) for e in list(ts) + list(vs)):
+            return n
+        names_ok = all(isinstance(t, ast.Name) for t in ts)
+        attrs_ok = all(isinstance(t, ast.Name) or (isinstance(t, ast.Attribute) and isinstance(t.value, ast.Name) and t.value.id == "self") for t in ts) \
+            and all(isinstance(v, (ast.Name, ast.Constant)) for v in vs)
+        if not (names_ok or attrs_ok):
+            return n
+        tnames = {t.id for t in ts if isinstance(t, ast.Name)}
+        if len(tnames) != sum(1 for t in ts if isinstance(t, ast.Name)):
+            return n
+        if any(isinstance(k, ast.Name) and k.id in tnames for v in vs for k in ast.walk(v)):
+            return n
+        return [ast.copy_location(ast.Assign(targets=[t], value=v), n) for t, v in zip(ts, vs)]
+
+
 class Program:
     def __init__(self, repo: str = REPO):
         self.repo = repo
@@ -179,6 +204,7 @@ class Program:
                     tree = ast.parse(src, filename=path)
                 except SyntaxError as e:
                     raise AnalysisError(f"cannot parse {path}: {e}")
+                tree = _SplitTupleAssign().visit(tree)
                 mod = Module(name, path, tree, src)
                 mod.is_pkg = fn == "__init__.py"
                 self.modules[name] = mod
